@@ -42,6 +42,7 @@ type vrScenario struct {
 	sbiFailsFrom   int           // > 0: the target rejects its n-th and every later Set (1-based)
 	intents        int           // > 1: that many intents (owner1..ownerN, same content) in the transaction
 	modifyFailNth  int           // > 0: the n-th write of the intended store fails (1-based), the others succeed
+	duplicate      bool          // the request names owner1 twice: it is refused as a whole
 }
 
 var vrTraceMu sync.Mutex
@@ -161,6 +162,9 @@ func vrRunLive(t *testing.T, sc vrScenario) (tracep *[]string, rsp *sdcpb.Transa
 	tis := []*types.TransactionIntent{mk("owner1", prio, sc.content)}
 	for i := 2; i <= sc.intents; i++ {
 		tis = append(tis, mk(fmt.Sprintf("owner%d", i), prio+int32(i), sc.content))
+	}
+	if sc.duplicate {
+		tis = append(tis, mk("owner1", prio, sc.content))
 	}
 	rsp, err = d.TransactionSet(ctx, "trans1", tis, replace, timeout, sc.dryRun)
 	return
@@ -387,6 +391,15 @@ func TestVerifReplayTransactionSet(t *testing.T) {
 					fmt.Printf("REPLAY-FAIL fn=%s clause=%s input=%s,existingPriority=%d,newPriority=%d err=%v effects=%v why=a %s transaction has effects\n", fn, clause, sc, pr[0], pr[1], err, trace, kind)
 				}
 			}
+		}
+	}
+	// C03: a request that is refused as a whole (the same intent named twice) has no effect, with or without a replace intent
+	for _, repl := range []bool{false, true} {
+		n++
+		sc := vrScenario{content: "valid", replace: repl, duplicate: true}
+		trace, _, err, _ := vrRun(t, sc)
+		if err == nil || len(trace) != 0 {
+			fmt.Printf("REPLAY-FAIL fn=%s clause=refused_request_has_no_effect input=%s,sameIntentTwice=true err=%v effects=%v why=a request that names an intent twice has to be refused without any effect\n", fnTS, sc, err, trace)
 		}
 	}
 	// C06: whatever a cancel or the timer runs into, the datastore accepts a new transaction once the timeout has passed
